@@ -33,7 +33,11 @@ extern "C" int LLVMFuzzerTestOneInput(const uint8_t * data, size_t size)
     else if (which == 1) { auto s = bxdecay0::verif::reparse_background_isotopes(); check_names(s); labels()["bkg_list_parsed"]++; if (!s.empty()) labels()["bkg_list_nonempty"]++; }
     else {
       auto m = bxdecay0::verif::reparse_dbd_modes(); labels()["modes_parsed"]++; if (!m.empty()) labels()["modes_nonempty"]++;
-      for (auto & kv : m) { if ((int)kv.first <= 0) violation("mode table entry with id <= 0"); if (kv.second.unique_label.empty()) violation("mode table entry with empty label"); if (kv.second.dbd_mode != kv.first) violation("mode table key differs from record id"); }
+      for (auto & kv : m) { if ((int)kv.first <= 0) violation("mode table entry with id <= 0"); if (kv.second.unique_label.empty()) violation("mode table entry with empty label"); if (kv.second.dbd_mode != kv.first) violation("mode table key differs from record id");
+        // the loader's own predicate on the columns: mode id inside the published range, legacy column 'not applicable' or a legacy Decay0 mode
+        if ((int)kv.first < (int)bxdecay0::DBDMODE_MIN || (int)kv.first > (int)bxdecay0::DBDMODE_MAX) violation("mode table entry with an id outside DBDMODE_MIN..DBDMODE_MAX");
+        int lm = (int)kv.second.legacy_modebb;
+        if (!(lm == (int)bxdecay0::LEGACY_MODEBB_NA || lm == (int)bxdecay0::LEGACY_MODEBB_UNDEF || (lm >= 1 && lm <= (int)bxdecay0::LEGACY_MODEBB_MAX))) violation("mode table entry whose legacy-mode column is neither 'not applicable' nor a legacy Decay0 mode (1..20)"); }
     }
   } catch (std::exception &) { labels()["exception"]++; }
   return 0;
